@@ -620,6 +620,19 @@ module Coq_Pos =
   | N0 -> p
   | Npos n1 -> iter (fun x -> XO x) p n1
 
+  (** val iter_op : ('a1 -> 'a1 -> 'a1) -> positive -> 'a1 -> 'a1 **)
+
+  let rec iter_op op p a =
+    match p with
+    | XI p0 -> op a (iter_op op p0 (op a a))
+    | XO p0 -> iter_op op p0 (op a a)
+    | XH -> a
+
+  (** val to_nat : positive -> nat **)
+
+  let to_nat x =
+    iter_op Coq__1.add x (S O)
+
   (** val of_succ_nat : nat -> positive **)
 
   let rec of_succ_nat = function
@@ -847,6 +860,12 @@ module N =
   let shiftr a = function
   | N0 -> a
   | Npos p -> Coq_Pos.iter div2 a p
+
+  (** val to_nat : n -> nat **)
+
+  let to_nat = function
+  | N0 -> O
+  | Npos p -> Coq_Pos.to_nat p
 
   (** val of_nat : nat -> n **)
 
@@ -15428,6 +15447,56 @@ let run_m o body =
                  then join ((Npos (XI (XI (XO (XO (XO XH)))))) :: []) ds
                  else []))))))
 
+(** val run_k_go : nat -> n -> n -> bytes list -> bytes list **)
+
+let rec run_k_go n0 a step0 acc =
+  match n0 with
+  | O -> rev_append acc []
+  | S k -> run_k_go k (N.add a step0) step0 ((str (icao_to_country a)) :: acc)
+
+(** val run_k : bytes -> bytes * bytes **)
+
+let run_k body =
+  match split (Npos (XO (XI (XO (XI (XI XH)))))) body with
+  | [] ->
+    ((str (String ((Ascii (true, true, false, false, true, true, true,
+       false)), (String ((Ascii (true, true, false, true, false, true, true,
+       false)), (String ((Ascii (true, false, false, true, false, true, true,
+       false)), (String ((Ascii (false, false, false, false, true, true,
+       true, false)), EmptyString))))))))), [])
+  | s :: l ->
+    (match l with
+     | [] ->
+       ((str (String ((Ascii (true, true, false, false, true, true, true,
+          false)), (String ((Ascii (true, true, false, true, false, true,
+          true, false)), (String ((Ascii (true, false, false, true, false,
+          true, true, false)), (String ((Ascii (false, false, false, false,
+          true, true, true, false)), EmptyString))))))))), [])
+     | c :: l0 ->
+       (match l0 with
+        | [] ->
+          ((str (String ((Ascii (true, true, false, false, true, true, true,
+             false)), (String ((Ascii (true, true, false, true, false, true,
+             true, false)), (String ((Ascii (true, false, false, true, false,
+             true, true, false)), (String ((Ascii (false, false, false,
+             false, true, true, true, false)), EmptyString))))))))), [])
+        | st :: l1 ->
+          (match l1 with
+           | [] ->
+             ((str (String ((Ascii (true, true, true, true, false, true,
+                true, false)), (String ((Ascii (true, true, false, true,
+                false, true, true, false)), EmptyString))))),
+               (join ((Npos (XO (XO (XI (XI (XO XH)))))) :: [])
+                 (run_k_go (N.to_nat (parse_dec c)) (parse_dec s)
+                   (parse_dec st) [])))
+           | _ :: _ ->
+             ((str (String ((Ascii (true, true, false, false, true, true,
+                true, false)), (String ((Ascii (true, true, false, true,
+                false, true, true, false)), (String ((Ascii (true, false,
+                false, true, false, true, true, false)), (String ((Ascii
+                (false, false, false, false, true, true, true, false)),
+                EmptyString))))))))), []))))
+
 (** val run_case : bytes -> bytes **)
 
 let run_case line =
@@ -15574,7 +15643,72 @@ let run_case line =
                                    true, false)), (String ((Ascii (false,
                                    false, false, false, true, true, true,
                                    false)), EmptyString))))))))), []))
-                           | _ ->
+                           | XO p2 ->
+                             (match p2 with
+                              | XI p3 ->
+                                (match p3 with
+                                 | XO p4 ->
+                                   (match p4 with
+                                    | XO p5 ->
+                                      (match p5 with
+                                       | XH ->
+                                         (match l2 with
+                                          | [] -> run_k body
+                                          | _ :: _ ->
+                                            ((str (String ((Ascii (true,
+                                               true, false, false, true,
+                                               true, true, false)), (String
+                                               ((Ascii (true, true, false,
+                                               true, false, true, true,
+                                               false)), (String ((Ascii
+                                               (true, false, false, true,
+                                               false, true, true, false)),
+                                               (String ((Ascii (false, false,
+                                               false, false, true, true,
+                                               true, false)),
+                                               EmptyString))))))))), []))
+                                       | _ ->
+                                         ((str (String ((Ascii (true, true,
+                                            false, false, true, true, true,
+                                            false)), (String ((Ascii (true,
+                                            true, false, true, false, true,
+                                            true, false)), (String ((Ascii
+                                            (true, false, false, true, false,
+                                            true, true, false)), (String
+                                            ((Ascii (false, false, false,
+                                            false, true, true, true, false)),
+                                            EmptyString))))))))), []))
+                                    | _ ->
+                                      ((str (String ((Ascii (true, true,
+                                         false, false, true, true, true,
+                                         false)), (String ((Ascii (true,
+                                         true, false, true, false, true,
+                                         true, false)), (String ((Ascii
+                                         (true, false, false, true, false,
+                                         true, true, false)), (String ((Ascii
+                                         (false, false, false, false, true,
+                                         true, true, false)),
+                                         EmptyString))))))))), []))
+                                 | _ ->
+                                   ((str (String ((Ascii (true, true, false,
+                                      false, true, true, true, false)),
+                                      (String ((Ascii (true, true, false,
+                                      true, false, true, true, false)),
+                                      (String ((Ascii (true, false, false,
+                                      true, false, true, true, false)),
+                                      (String ((Ascii (false, false, false,
+                                      false, true, true, true, false)),
+                                      EmptyString))))))))), []))
+                              | _ ->
+                                ((str (String ((Ascii (true, true, false,
+                                   false, true, true, true, false)), (String
+                                   ((Ascii (true, true, false, true, false,
+                                   true, true, false)), (String ((Ascii
+                                   (true, false, false, true, false, true,
+                                   true, false)), (String ((Ascii (false,
+                                   false, false, false, true, true, true,
+                                   false)), EmptyString))))))))), []))
+                           | XH ->
                              ((str (String ((Ascii (true, true, false, false,
                                 true, true, true, false)), (String ((Ascii
                                 (true, true, false, true, false, true, true,
